@@ -39,7 +39,11 @@ struct Rig {
     explicit Rig(const u64& clk, bool sink = true) : clock(clk) {
         dev.SetInterruptHandler([this] { irq_at.push_back(clock); });
         if (sink)
-            dev.SetAudioCallback([this](std::array<std::int16_t, 2> s) { log.push_back({clock, (u16)s[0], (u16)s[1]}); });
+            install_sink();
+    }
+    // (re)attach the audio callback: a host may replace its sink at any time; that is not an event of the port
+    void install_sink() {
+        dev.SetAudioCallback([this](std::array<std::int16_t, 2> s) { log.push_back({clock, (u16)s[0], (u16)s[1]}); });
     }
 };
 
@@ -208,8 +212,46 @@ void run_direct(Ctx& ctx, u64 c, unsigned ops_per_history) {
     };
     const u64 sane_k = 20ull * 65536;
 
+    // ---- prelude of one short-period history in six: a long stream. About 65 500 words are sent and played (16 at a time)
+    // before the random operations start, so that whatever the port counts in 16 bits (words accepted, words played, frames)
+    // is just below its wrap when the fill-to-16 / overflow / drain operations of the history arrive.
+    if (period <= 40 && g.chance(1, 6)) {
+        const u32 target = 65520 - (u32)g.below(48);
+        RunResult pr = Classify([&] {
+            A.dev.SetTransmitEnable(1);
+            B.dev.SetTransmitEnable(1);
+            M.enable(true);
+            u32 streamed = 0;
+            while (streamed < target && !bad) {
+                unsigned n = (unsigned)std::min<u32>(16, target - streamed);
+                for (unsigned q = 0; q < n; ++q) {
+                    u16 w = ids.get();
+                    A.dev.Send(w);
+                    B.dev.Send(w);
+                    M.send(w);
+                }
+                streamed += n;
+                step_both((u64)period * ((n + 1) / 2));
+            }
+        });
+        log(fmt("stream of %u words played", target));
+        opname = "stream";
+        if (pr.outcome != OK)
+            fail("assert:stream", std::string("unexpected ") + outcome_name(pr.outcome) + " " + pr.what);
+        check_all();
+        ctx.count("long_stream_preludes");
+        ctx.count("long_stream_words", target);
+        ctx.seen("nt", fmt("stream:p=%s", pclass(period)));
+    }
+
     for (unsigned op = 0; op < ops_per_history && !bad; ++op) {
         unsigned kind = (unsigned)g.below(100);
+        if (!no_sink && g.chance(1, 25)) { // the host replaces its audio callback (same sink): not an event of the port
+            A.install_sink();
+            B.install_sink();
+            log("audio callback replaced");
+            ctx.count("audio_callback_replaced");
+        }
         size_t fill0 = M.fifo.size();
         size_t frames0 = M.frames.size();
         u64 irqs0 = M.empty_irqs;
